@@ -397,7 +397,10 @@ fn evaluate_boolean(
                 || current_index >= current_end_index
             {
                 if current_op == Not {
-                    ret = false;
+                    // Reached with `ret == true` (an operand was true: `not` is false) or, at the
+                    // end of the operand list, with `ret == false` (no operand was true: `not` is
+                    // true).
+                    ret = !ret;
                 }
                 current_index = current_end_index;
                 continue;
